@@ -263,17 +263,20 @@ inductive BodyKind where
   | chunked
   deriving Repr, BEq, DecidableEq
 
+/-- duplicated Content-Length headers (joined with commas) are tolerated when all copies are identical -/
+def clPick (v : Str) : Option Str :=
+  if v.contains cComma then
+    match splitCommaWs v with
+    | [] => none
+    | p :: ps => if ps.all (· == p) then some p else none
+  else some v
+
 /-- the `Content-Length` part of `_read_body` (`none` = HTTPInputError; `some none` = no Content-Length) -/
 def contentLength (limit : Nat) (h : Hdrs) : Option (Option Nat) :=
   match hGet h kContentLength with
   | none => some none
   | some v =>
-    let v1 := if v.contains cComma then
-        match splitCommaWs v with
-        | [] => none
-        | p :: ps => if ps.all (· == p) then some p else none
-      else some v
-    match v1 with
+    match clPick v with
     | none => none
     | some p =>
       match parseInt p with
